@@ -8,6 +8,7 @@ From Segno Require Import Base.PyLite Ref.Geometry Ref.MaskCond Ref.Bch.
 From Segno Require Import Ref.Classify Ref.Decoder Ref.Spec.
 From Segno Require Import Model.Bits Model.Segment Model.Version Model.Stream Model.Matrix Model.Encode Model.Sequence Model.Args.
 From Segno Require Import Ref.Pixel Model.Iter Model.Color Model.TextFmt Ref.TextFmtReader Model.Png Ref.PngReader Ref.NetpbmReader Model.Helpers Ref.HelpersReader Model.Route.
+From Segno Require Import Model.Svg Ref.SvgReader Ref.SvgReaderDec Model.Vector Ref.VectorReader.
 Cd "build/ocaml".
 Separate Extraction Classify.classify_matrix Classify.kf_fmt_col Classify.align_aux_matrix
   Encode.encode Encode.encode_core Args.encode_args Args.normalize_version Args.normalize_mode Args.normalize_mask Args.normalize_errorlevel Sequence.encode_sequence Sequence.chunk_overflows Sequence.divide_into_chunks Segment.make_segment Segment.find_mode Version.find_version Version.boost_error_level
@@ -19,5 +20,15 @@ Separate Extraction Classify.classify_matrix Classify.kf_fmt_col Classify.align_
   TextFmt.write_txt TextFmt.write_xpm TextFmt.write_xbm TextFmt.write_terminal TextFmt.write_terminal_compact
   TextFmtReader.read_txt TextFmtReader.read_xbm TextFmtReader.read_xpm TextFmtReader.read_terminal TextFmtReader.read_terminal_compact
   Png.png_parts Png.crc32 PngReader.read_png NetpbmReader.read_pbm NetpbmReader.read_pam_full NetpbmReader.read_ppm_full
-  Route.resolve Route.sequence_filename Route.build_config Route.default_config.
+  Route.resolve Route.sequence_filename Route.build_config Route.default_config
+  Helpers.make_wifi_data Helpers.make_mecard_data Helpers.make_vcard_data Helpers.make_geo_data Helpers.make_make_email_data
+  Helpers.make_epc_qr_data_std
+  HelpersReader.mecard_read HelpersReader.mecard_pieces_read HelpersReader.mecard_components HelpersReader.cut_esc
+  HelpersReader.vcard_read HelpersReader.vcard_content_lines HelpersReader.split_crlf HelpersReader.vcard_unescape
+  HelpersReader.vcard_components HelpersReader.mailto_read HelpersReader.uri_text HelpersReader.geo_read
+  HelpersReader.epc_read_lines HelpersReader.epc_read_amount
+  Svg.write_svg SvgReader.read_svg SvgReader.stroke_cells SvgReader.fill_rect SvgReader.page_user SvgReader.path_scale
+  SvgReaderDec.read_svg_q SvgReaderDec.page_user_q SvgReaderDec.path_scale_q SvgReaderDec.stroke_cells_q SvgReaderDec.fill_rect_q
+  Vector.write_eps Vector.write_pdf Vector.pdf_content Vector.write_tex
+  VectorReader.eps_read VectorReader.pdf_read_content VectorReader.pdf_read_file VectorReader.pgf_read VectorReader.stroke_cells.
 Cd "../..".
